@@ -20,6 +20,12 @@ structure WfReport where
   zeroMintQuantity : Bool := false
   zeroOutputAsset : Bool := false
   emptyOptionalField : Bool := false
+  /-- some set of the witness set (key witnesses, native scripts, bootstrap witnesses, Plutus scripts of any version,
+  Plutus data) lists one member twice, or is there and empty -/
+  dupWitnessMember : Bool := false
+  emptyWitnessField : Bool := false
+  /-- key witnesses the (unsigned) transaction carries -/
+  keyWitnesses : Nat := 0
   badRewardAccount : Bool := false
   deriving Repr
 
@@ -197,6 +203,9 @@ def readTx (payload : Bytes) : Option (ATx × WfReport × Item) := do
           let mv ← readMetadatum v
           some (kv, mv)
       | _ => none)
+    let witnessSets : List (List Item) := [0, 1, 2, 3, 4, 6, 7].filterMap fun (k : Int) =>
+      (lookupInt w k).bind fun x => x.asSet?
+    let keyWitnesses := ((lookupInt w 0).bind fun x => x.asSet?).map (·.length) |>.getD 0
     let optionalEmpty (k : Int) : Bool :=
       match lookupInt b k with
       | some x => (match x.asSet? with | some [] => true | _ => (match x.asMap? with | some [] => true | _ => false))
@@ -210,6 +219,9 @@ def readTx (payload : Bytes) : Option (ATx × WfReport × Item) := do
       zeroMintQuantity := mint.any fun m => m.2.2 = 0
       zeroOutputAsset := outs.any fun o => o.1.assets.any (fun a => a.2.2 ≤ 0) || o.2
       emptyOptionalField := [4, 5, 9, 13, 14, 18].any optionalEmpty
+      dupWitnessMember := witnessSets.any fun xs => hasDup (xs.map encode)
+      emptyWitnessField := witnessSets.any (·.isEmpty)
+      keyWitnesses
       badRewardAccount := wds.any fun w =>
         w.1.length != 29 || !((w.1.head?.map fun h => h.toNat / 16 = 14 || h.toNat / 16 = 15).getD false) }
     let atx : ATx := {
